@@ -218,3 +218,32 @@ fn c20_grouping_iter_all_rebuild2() {
     std::mem::forget(m);
     std::mem::forget(m2);
 }
+
+/// Starts inside an open group that already holds a local binding (key and value symbolic), then 4
+/// fully symbolic operations: reaches "local in the outer group, begin, global in the inner group,
+/// end, end" (6 operations deep) at the cost of 4 symbolic steps.
+#[kani::proof]
+#[kani::unwind(5)]
+fn c20_grouping_hashmap_prefix_local_then4() {
+    let mut m: GroupingHashMap<u8, u8> = Default::default();
+    let mut model = Model::new();
+    m.begin_group();
+    model.begin();
+    let v0: u8 = kani::any();
+    kani::assume(v0 == 1 || v0 == 2);
+    if kani::any() {
+        m.insert(1u8, v0, Scope::Local);
+        model.insert(1, v0, false);
+    } else {
+        m.insert(0u8, v0, Scope::Local);
+        model.insert(0, v0, false);
+    }
+    check_hash(&m, &model);
+    let o1 = step_hash!(m, model, 2);
+    let o2 = step_hash!(m, model, 2);
+    let o3 = step_hash!(m, model, 2);
+    let o4 = step_hash!(m, model, 2);
+    kani::cover!(o1 == 0 && o2 == 3 && o3 == 1 && o4 == 1 && model.get(0).is_some(), "begin, global, end, end after a local binding in the outer group");
+    kani::cover!(model.depth == 2, "depth 2 reached");
+    std::mem::forget(m);
+}
